@@ -26,7 +26,9 @@ class Stall:
     @staticmethod
     def gen_cases(rng, tier):
         items = [{"pending": 300, "recv_err": False, "trials": 1}, {"pending": 1100, "recv_err": False, "trials": 1},
-                 {"pending": 300, "recv_err": True, "trials": 1}, {"pending": 1100, "recv_err": True, "trials": 4}]
+                 {"pending": 300, "recv_err": True, "trials": 1}, {"pending": 1100, "recv_err": True, "trials": 4},
+                 # the re-subscription on a new stream fails (its first Send), that stream fails too, the next one works
+                 {"pending": 20, "recv_err": False, "resub_fail": True, "trials": 2}]
         if tier != "quick":
             items += [{"pending": rng.choice([1026, 1500, 2500]), "recv_err": True, "trials": 10},
                       {"pending": rng.choice([1030, 4000]), "recv_err": rng.random() < 0.5, "trials": 5}]
@@ -43,14 +45,14 @@ class Stall:
         from .core import gN
         it = c["item"]
         b = lambda x: "true" if x else "false"
-        return "Build_stall_case %s %s %s %s %s %s %s %s" % (
-            gN(it["pending"]), b(it["recv_err"]), gN(o["queue_max"]), gN(max(0, o["stuck"])), b(o["hot_after"] == "val"),
+        return "Build_stall_case %s %s %s %s %s %s %s %s %s" % (
+            gN(it["pending"]), b(it["recv_err"]), b(it.get("resub_fail")), gN(o["queue_max"]), gN(max(0, o["stuck"])), b(o["hot_after"] == "val"),
             gN(o["streams"]), b(o["resub_on_new"]), gN(o["trials_failed"]))
 
     @staticmethod
     def nontrivial(c, o):
         import json
-        return json.dumps(c["item"], sort_keys=True) if o["queue_max"] > 0 else None
+        return json.dumps(c["item"], sort_keys=True) if o["queue_max"] > 0 or c["item"].get("resub_fail") else None
 
     @staticmethod
     def describe(c, o):
